@@ -35,7 +35,7 @@ type c03Script struct {
 
 type c03 struct{}
 
-func init() { core.Register(c03{}) }
+func init()            { core.Register(c03{}) }
 func (c03) ID() string { return "C03" }
 
 var c03Byz = []string{"valid-solved", "r=0", "s=0", "r=n", "s=n", "r+n", "s+n", "t=0", "pubx+p", "puby+p?", "offcurve", "infinity", "neg-pub", "e>=n"}
@@ -57,7 +57,7 @@ func (c03) Meta() core.Meta {
 			"oracle": "sm2ref.Verify (GM/T 0003.2 B1-B7 on math/big affine arithmetic)"},
 		Assumptions: []string{"sm2ref is correct (anchors)", "ids are kept below 8192 bytes (ENTL overflow is C13's question)", "error values are not judged, only the boolean and panics",
 			"the equivalence over all byte strings is sampled around authentic and solved-for tuples, not enumerated"},
-		FaultKinds: []string{"wire:flip", "wire:drop", "wire:insert", "wire:trunc", "wire:extend", "wire:zero", "wire:swap", "wire:splice", "byz:*", "reused-receive-buffers"},
+		FaultKinds: []string{"wire:flip", "wire:drop", "wire:insert", "wire:trunc", "wire:extend", "wire:zero", "wire:swap", "wire:splice", "wire:resplit", "byz:*", "reused-receive-buffers"},
 		ProbeNames: []string{"accept-expected", "reason:length", "reason:r-range", "reason:s-range", "reason:t=0", "reason:pub-noncanonical", "reason:pub-offcurve", "reason:infinity", "reason:mismatch", "short-t-valid"},
 		StepUnit:   "deliveries + verify calls",
 	}
@@ -234,6 +234,10 @@ func c03Fields(entry string) []string {
 func c03Mut(entry string, f *core.Rand) wire.Mut {
 	fields := c03Fields(entry)
 	fld := fields[f.Intn(len(fields))]
+	if f.Chance(1, 12) { // same bytes, field boundary moved: (pubx,puby) or (r,s) re-split
+		pair := [][2]string{{"pubx", "puby"}, {"r", "s"}}[f.Intn(2)]
+		return wire.Mut{Field: pair[0], Kind: "resplit", Other: pair[1], I: f.PickInt(-32, -1, 1, 1, 32, f.Range(-31, 31))}
+	}
 	switch f.Weighted(10, 2, 2, 2, 2, 1, 2, 3) {
 	case 0:
 		return wire.Mut{Field: fld, Kind: "flip", I: f.Intn(256)}
